@@ -13,7 +13,7 @@ ASSUMPTIONS = [
   "(3) the text to_code returns for every state of build 1, exec-ed in one namespace holding spy_on, signals, return_status and the callbacks by name, "
   "used in place of the generated states; (4) the hand-written reference: one plain state function per state that looks the signal up in the table, "
   "calls the callback, otherwise names its parent (the documented handler shape) - the processor's behaviour on such charts is C01-C03's subject",
-  "callbacks are functions with distinct identifier names other than 'handled'; signal names are identifiers",
+  "callbacks are functions - or callable objects that keep a __name__ (cobj) - with distinct identifier names other than 'handled'; signal names are identifiers; a declining callback may have called trans() before it declines (dtrans)",
   "fresh signal registry and fabric per case",
 ]
 OUTSIDE = ["lambdas / bound methods / callbacks named 'handled' as callbacks, signal names that are not identifiers (to_code cannot render them)",
@@ -84,6 +84,8 @@ def pre(v, lim):
   top = 1 if d == 0 else (2 if d == 1 else (4 if d == 2 else 8))
   if v["pmask"] >= top:
     return False
+  if v["dtrans"] == 1 and v["pmask"] == 0:
+    return False
   if v["evt"] == 1:
     if d != 0 or v["kind"] != 0 or v["pmask"] != 0:
       return False
@@ -102,6 +104,7 @@ class Build:
     self.table = table          # state -> {signal name: (kind, arg)}
     self.parent = parent
     self.cbs = {}
+    self.callable_objects = False
 
   def callback(self, i, signame):
     kind, arg = self.table[i][signame]
@@ -113,15 +116,31 @@ class Build:
       if kind == "handled":
         return return_status.HANDLED
       if kind == "decline":
+        if arg is not None:
+          chart.trans(b.states[arg])       # a guard that fails after the transition was prepared: the callback still declines
         return return_status.UNHANDLED
       return chart.trans(b.states[arg])
-    cb.__name__ = "cb_s%d_%s_%s%s" % (i, signame, kind, "" if arg is None else arg)
-    cb.__qualname__ = cb.__name__
-    self.cbs[cb.__name__] = cb
+    name = "cb_s%d_%s_%s%s" % (i, signame, kind, "" if arg is None else arg)
+    if self.callable_objects:
+      # a callback that is a callable object keeping its name (a class-based decorator, functools.partial, an instance with __call__)
+      class Counted:
+        def __init__(self, fn):
+          self.fn = fn
+          self.__name__ = name
+          self.calls = 0
+
+        def __call__(self, chart, e):
+          self.calls += 1
+          return self.fn(chart, e)
+      cb = Counted(cb)
+    else:
+      cb.__name__ = name
+      cb.__qualname__ = name
+    self.cbs[name] = cb
     return cb
 
 
-def make_table(shape, cur, initm, depth, kind, pmask, noise, bsel, ee):
+def make_table(shape, cur, initm, depth, kind, pmask, noise, bsel, ee, dtrans=0):
   parent = SHAPES[shape]
   rest = rest_of(shape, initm, cur)
   path = path_of(shape, rest)
@@ -129,7 +148,7 @@ def make_table(shape, cur, initm, depth, kind, pmask, noise, bsel, ee):
   for pos, s in enumerate(path):
     if pos < depth:
       if (pmask >> pos) & 1:
-        table[s]["A"] = ("decline", None)
+        table[s]["A"] = ("decline", (s + 1) % 3 if dtrans else None)
     elif pos == depth:
       table[s]["A"] = ("handled", None) if kind == 0 else ("trans", kind - 1)
   if noise:
@@ -170,13 +189,14 @@ def register_all(chart, b, order, via_factory=None):
       chart.register_parent(b.states[i], chart.top if p < 0 else b.states[p])
 
 
-def run_build(which, shape, cur, initm, depth, kind, pmask, noise, bsel, ee, order, evt, texts=None):
+def run_build(which, shape, cur, initm, depth, kind, pmask, noise, bsel, ee, order, evt, dtrans=0, cobj=0, texts=None):
   """returns (start log, step log, resting state name, texts of to_code when which == 1)"""
   from vf import hosts
   hsm, ao = hosts.install_stubs()
   import miros.event as ev
-  parent, table = make_table(shape, cur, initm, depth, kind, pmask, noise, bsel, ee)
+  parent, table = make_table(shape, cur, initm, depth, kind, pmask, noise, bsel, ee, dtrans)
   b = Build(table, parent)
+  b.callable_objects = bool(cobj)
   out_texts = None
   if which == 1:
     chart = hsm.HsmWithQueues()
@@ -230,10 +250,10 @@ def run_build(which, shape, cur, initm, depth, kind, pmask, noise, bsel, ee, ord
 BUILDS = {1: "template+register", 2: "Factory", 3: "to_code text", 4: "hand-written reference"}
 
 
-def case(shape, cur, initm, depth, kind, pmask, noise, bsel, ee, order, evt):
-  args = (shape, cur, initm, depth, kind, pmask, noise, bsel, ee, order, evt)
-  parent, table = make_table(shape, cur, initm, depth, kind, pmask, noise, bsel, ee)
-  what = "parent=%s table=%s start=s%d event=%s first-registered=s%d" % (parent, table, cur, "B" if evt else "A", order)
+def case(shape, cur, initm, depth, kind, pmask, noise, bsel, ee, order, evt, dtrans=0, cobj=0):
+  args = (shape, cur, initm, depth, kind, pmask, noise, bsel, ee, order, evt, dtrans, cobj)
+  parent, table = make_table(shape, cur, initm, depth, kind, pmask, noise, bsel, ee, dtrans)
+  what = "parent=%s table=%s start=s%d event=%s first-registered=s%d%s" % (parent, table, cur, "B" if evt else "A", order, ", callbacks are callable objects" if cobj else "")
   if not any(table):
     # no callback registered on any state: register_signal_callback was never called, the chart was not assembled with it
     return PASS(nontrivial=False, tags=["degenerate: no callback at all (outside the claim)"])
@@ -265,7 +285,7 @@ def case(shape, cur, initm, depth, kind, pmask, noise, bsel, ee, order, evt):
 
 
 Family(globals(), "h_builds", params=[("shape", 0, 3), ("cur", 0, 2), ("initm", 0, 1), ("depth", 0, 3), ("kind", 0, 3), ("pmask", 0, 7),
-                                       ("noise", 0, 1), ("bsel", 0, 3), ("ee", 0, 2), ("order", 0, 2), ("evt", 0, 1)],
+                                       ("noise", 0, 1), ("bsel", 0, 3), ("ee", 0, 2), ("order", 0, 2), ("evt", 0, 1), ("dtrans", 0, 1), ("cobj", 0, 1)],
        pre=pre, case=case, split=["shape", "cur", "ee", "order"], tiers=LIM)
 
 
